@@ -42,6 +42,7 @@ type c07Case struct {
 	// Declared: a read-error case on a frame whose header DECLARES this body size (decimal) while only the
 	// frame's own body bytes follow (declared > present: the stream cannot be complete)
 	Declared string `json:"declared_body_size,omitempty"`
+	Empty    int    `json:"empty_every,omitempty"` // > 0: every Empty-th call of the reader returns (0, nil)
 }
 
 func init() {
@@ -51,7 +52,7 @@ func init() {
 		Level:  "fault_enumeration",
 		Rule: "E3 fault enumeration: (truncation) every frame of a 40-frame alphabet (4 message kinds × body lengths 0..200) × EVERY cut point k < len(frame) × reader chunkings {whole, 1 byte at a time, and every chunking with ≤1 (thorough ≤2) extra deviations: short read at any byte, data together with io.EOF, one empty read}, the same cuts through 11 standard-library reader types (bytes.Reader, bytes.Buffer, strings.Reader, bufio.Reader of 16/32/64/4096 bytes, io.LimitedReader, io.SectionReader, iotest.OneByteReader, iotest.DataErrReader - code may special-case a reader's dynamic type), and four frames with bodies of 1..3 MiB × cut points within ±1 of m·2^p (p = 9..22, m = 1..3, measured from the frame and from the body start) × {whole, 4 KiB, 64 KiB chunks}: never success, n = k, cause io.EOF for k=0, io.ErrUnexpectedEOF otherwise, either one for k=32; " +
 			"(corrupt header, in a memory-limited worker process) every single-bit flip and every single-byte replacement (01, 80, ff) of the header-size word and of the body-size word of a valid header; header-size field × body-size field alphabets (0, len±1, 2^31, 2^32, 2^40, 2^47, 2^48, 2^62, 2^63-1, 2^63, 2^63+1, 2^64-1 …) × version bytes {ASCII, 0xff, NUL} × {0, 5, all} body bytes present: header size ≠ 32 ⇒ ErrInvalidHeaderSize after exactly 32 bytes; otherwise success iff the declared body is completely present; never a panic, never a dead process; ReadHeader on every prefix 0..40 of arbitrary bytes returns normally; " +
-			"(writer faults) every frame × EVERY byte budget k ≤ len(frame) × {partial write with error, refusal with count 0, full count TOGETHER with the error on the call that ends exactly at the budget (one-shot; later bytes are recorded)}: (corrupt headers also through three readers that are io.Seekers - iohelper.AtToReader and an over-long io.SectionReader, which report more remaining bytes than they can deliver, and bytes.Reader) Marshal returns that error and the count of accepted bytes, which are exactly frame[:count] - also for 18 longer frames (bodies of 4000..70000 bytes and 1 MiB+1) with budgets at both ends and around 512, 4096, 8192, 65536, 2^20 measured from the start, from the body start and from the end; a payload-length sweep (EVERY length 0..600 × 2 kinds × every cut point and every writer budget); (read errors) a non-EOF error injected at every offset, alone or together with the last bytes, under whole and 1-byte chunkings and after every single chunking deviation (short read at any byte, one empty read): no success unless the frame was delivered completely, n = bytes delivered; the same on frames of 1..3 MiB (the incremental read path) at cut points around every power of two, and on streams whose header declares 2^20+1 .. 2^64-1 body bytes while 0, 5 or 70000 follow. A case is one (frame, fault point, mode); non-trivial when the fault point is inside the frame (0 < k < len).",
+			"(truncation, polling readers) every cut point of frames with bodies of 0 / 33 / 200 / 2048 bytes read through a reader whose every 2nd call returns (0, nil), in pieces of 1 and 16 bytes; (writer faults) every frame × EVERY byte budget k ≤ len(frame) × {partial write with error, refusal with count 0, full count TOGETHER with the error on the call that ends exactly at the budget (one-shot; later bytes are recorded)}: (corrupt headers also through three readers that are io.Seekers - iohelper.AtToReader and an over-long io.SectionReader, which report more remaining bytes than they can deliver, and bytes.Reader) Marshal returns that error and the count of accepted bytes, which are exactly frame[:count] - also for 18 longer frames (bodies of 4000..70000 bytes and 1 MiB+1) with budgets at both ends and around 512, 4096, 8192, 65536, 2^20 measured from the start, from the body start and from the end; a payload-length sweep (EVERY length 0..600 × 2 kinds × every cut point and every writer budget); (read errors) a non-EOF error injected at every offset, alone or together with the last bytes, under whole and 1-byte chunkings and after every single chunking deviation (short read at any byte, one empty read): no success unless the frame was delivered completely, n = bytes delivered; the same on frames of 1..3 MiB (the incremental read path) at cut points around every power of two, and on streams whose header declares 2^20+1 .. 2^64-1 body bytes while 0, 5 or 70000 follow. A case is one (frame, fault point, mode); non-trivial when the fault point is inside the frame (0 < k < len).",
 		Assumptions: []string{
 			"for a body-size field ≥ 2^63 (no valid frame can have such a body) only 'returns normally and does not succeed' is required; for smaller declared sizes that exceed the stream the truncation clause applies (n = bytes available)",
 			"the worker process runs under `ulimit -v`; a worker that dies is reported for the case it announced before executing it",
@@ -84,6 +85,11 @@ func c07Frames() []c06Frame {
 // ---- truncation
 
 func c07Trunc(f c06Frame, k int, env *mc.Env, uniform int) (got, want string) {
+	return c07TruncOpt(f, k, env, uniform, 0)
+}
+
+// c07TruncOpt: empty > 0 makes every empty-th call of the reader return (0, nil) (a polling source).
+func c07TruncOpt(f c06Frame, k int, env *mc.Env, uniform, empty int) (got, want string) {
 	defer func() {
 		if e := recover(); e != nil {
 			if s, ok := e.(string); ok && strings.HasPrefix(s, "mc:") {
@@ -93,7 +99,7 @@ func c07Trunc(f c06Frame, k int, env *mc.Env, uniform int) (got, want string) {
 		}
 	}()
 	wire := c06Wire(f)
-	r := &c06Reader{data: wire[:k], env: env, uniform: uniform}
+	r := &c06Reader{data: wire[:k], env: env, uniform: uniform, empty: empty}
 	n, _, err := pbcmpl.Unmarshal(r, c06Empty(f.Kind))
 	name := errName(err)
 	switch {
@@ -761,6 +767,34 @@ func c07Run(c *mc.Ctx) {
 		c.Count(1, 1)
 		c.Add("large_frame_truncation_cases", 1)
 	})
+	// truncation under POLLING readers (every 2nd call returns (0, nil), pieces of 1 or 16 bytes): every cut
+	// point of frames with bodies of 0, 33, 200 and 2048 bytes - hundreds of empty reads before the end
+	{
+		type pj struct {
+			f        c06Frame
+			k, chunk int
+		}
+		var pjs []pj
+		for _, l := range []int{0, 33, 200, 2048} {
+			for _, kf := range []c06Frame{{Kind: "pb"}, {Kind: "legacyv", Version: gen.Bytes("3.1")}} {
+				f := kf
+				f.Payload = l
+				for k := 0; k < len(c06Wire(f)); k++ {
+					pjs = append(pjs, pj{f, k, 1}, pj{f, k, 16})
+				}
+			}
+		}
+		c.Expect(int64(len(pjs)))
+		c.Par(len(pjs), func(i int) {
+			j := pjs[i]
+			fc := j.f
+			if g, w := c07TruncOpt(j.f, j.k, nil, j.chunk, 2); g != w {
+				c.Fail(14<<48|int64(i), "truncation", "truncation/polling-reader", c07Case{Frame: &fc, Cut: j.k, Uniform: j.chunk, Empty: 2}, g, w)
+			}
+			c.Count(1, 1)
+			c.Add("polling_reader_truncation_cases", 1)
+		})
+	}
 	// READ ERRORS on the large frames (the incremental read path above 1 MiB): a non-EOF error at the same
 	// cut points, alone and together with the last bytes, whole and in 4 KiB pieces; and on streams whose
 	// header DECLARES 2^20+1, 2^40, 2^63 or 2^64-1 body bytes while 0, 5 or 70000 follow (the untrusted-size
@@ -979,7 +1013,7 @@ func c07Judge(kind string, cs c07Case) (got, want string) {
 		if cs.Uniform == 0 {
 			env = mc.NewEnv(cs.Choices)
 		}
-		return c07Trunc(*cs.Frame, cs.Cut, env, cs.Uniform)
+		return c07TruncOpt(*cs.Frame, cs.Cut, env, cs.Uniform, cs.Empty)
 	case "truncation/std":
 		return c07TruncStd(*cs.Frame, cs.Cut, cs.Mode)
 	case "writer":
